@@ -115,7 +115,13 @@ def main(tier):
             elif r.random() < 0.25:
                 parts.append(r.choice(("b", "b2")))
                 cfgx = "c"
-            progs.append((cfgx, " + ".join(parts)))
+            src_ = " + ".join(parts)
+            if r.random() < 0.25 and not cfgx:
+                # the same through a computed value evaluated more than once (its compiled code is reused from the second evaluation on)
+                src_ = f"&cm = {src_}; cm; cm + cm"
+            elif r.random() < 0.1 and not cfgx:
+                src_ = f"func fm() {{ {src_} }}; fm(); fm() + fm()"
+            progs.append((cfgx, src_))
         lines = []
         seeds = []
         for cfgx, src in progs:
